@@ -118,8 +118,8 @@ const (
 	// SharedBatch: every request is its own raft entry (own timestamp) but all entries of the
 	// group are applied with one batch operator, committed at the end (node.applyEntries).
 	SharedBatch
-	// OneRequestList: all requests travel in ONE BatchInternalRaftRequest whose Timestamp (that of
-	// the first request) overrides the per-request timestamps (cluster-syncer path).
+	// OneRequestList: all requests travel in ONE BatchInternalRaftRequest (list Timestamp 0, so the
+	// per-request header timestamps apply).
 	OneRequestList
 )
 
@@ -195,9 +195,9 @@ func (s *SM) Apply(mode ApplyMode, reqs []Req) []string {
 			var rl node.BatchInternalRaftRequest
 			rl.ReqNum = int32(len(reqs))
 			rl.Reqs = irs
-			if len(reqs) > 0 {
-				rl.Timestamp = reqs[0].Ts
-			}
+			// list Timestamp 0: every request keeps its own header timestamp (ApplyRaftRequest falls
+			// back to it). No proposer in /repo builds a list with more than one request, so a shared
+			// timestamp for several commands is outside what production emits.
 			s.SM.ApplyRaftRequest(false, b, rl, 1, ids[0], stop)
 			b.CommitBatch()
 		})
